@@ -190,17 +190,21 @@ class C11(Check):
     reference_models = ["ref/refext4.py superblock parse, tree_digest(), check() (every checksum under the new seed / UUID)"]
 
     def budget(self, tier):
-        return {"runs": 700, "wall_s": 85} if tier == "quick" else {"runs": 30000, "wall_s": 1500}
+        return {"runs": 1500, "wall_s": 90} if tier == "quick" else {"runs": 30000, "wall_s": 1500}
 
     def generate(self, rng, tier):
         cfg = gen_config(rng, avoid=("mmp",))
         if rng.chance(0.4):
             cfg["initial"] = rng.choice(["poison", "random"])
+        if "flex_bg" not in cfg["features"] and rng.chance(0.3):
+            # RAID stride: mke2fs staggers the bitmaps of successive groups, so they sit behind / between inode tables
+            cfg["extra_eopts"] = ["stride=%d" % rng.choice([2, 4, 8, 16, 32])]
         n = rng.weighted([(1, 4), (2, 4), (3, 3), (4, 1), (5, 1)])
         reqs = [rng.choice(sorted(REQUESTS)) for _ in range(n)]
         return {"cfg": cfg, "world_seed": rng.u64(), "reqs": reqs, "req_seed": rng.u64(),
                 "clock": rng.weighted([("advance", 6), ("backwards", 2), ("far", 2)]), "scale": rng.choice([0.6, 1.0, 1.5]),
-                "deep": rng.chance(0.35)}
+                "deep": rng.chance(0.35),
+                "fullnode": rng.choice([1, 1, 2]) if (cfg["bs"] == 1024 and rng.chance(0.3)) else 0}
 
     def execute(self, spec, wd):
         o = Outcome()
@@ -214,6 +218,37 @@ class C11(Check):
             return o
         img = w["img"]
         clock = 1500002000
+        if spec.get("fullnode") and "dir_index" in cfg["features"] and "inline_data" not in cfg["features"]:
+            # an indexed directory whose root holds exactly as many entries as it has room for: the boundary every
+            # operation that makes room in index nodes (a checksum tail, a split) has to get right
+            from world import debugfs_script
+            bs_ = cfg["bs"]
+            csum_ = "metadata_csum" in cfg["features"]
+            limit = (bs_ - 32 - (8 if csum_ else 0)) // 8
+            nlen = 200
+            per_leaf = (bs_ - (12 if csum_ else 0)) // (8 + nlen)                   # how e2fsck -D packs 200-byte names
+            want_leaves = limit - spec["fullnode"] + 1                              # fullnode 1: exactly full, 2: one short
+            n = per_leaf * want_leaves
+            if n * (8 + nlen) < cfg["size_kib"] * 1024 // 3 and n < 6000:
+                hp = os.path.join(wd, "fullnode.host")
+                with open(hp, "wb") as f:
+                    f.write(b"x")
+                cmds = ['mkdir /fulldir'] + ['write "%s" "/fulldir/%04d%s"' % (hp, i, "n" * (nlen - 4)) for i in range(n)]
+                debugfs_script(img, cmds, wd, tag="full", rand_seed=11)
+                e2fsck(img, ["-fyD"], wd, tag="fullD", problems=False, clock=clock)
+                try:
+                    fsx = refext4.RefFS(path=img)
+                    for p_, rec in fsx.tree().items():
+                        if p_ == b"/fulldir":
+                            ht = fsx.htree(rec.inode)
+                            for nd in (ht or {}).get("nodes", []):
+                                lim = int.from_bytes(fsx.read_block(nd["pblk"])[nd["count_offset"]:nd["count_offset"] + 2], "little")
+                                if nd["count"] == lim:
+                                    o.stats["probe.full_index_node"] += 1
+                                elif nd["count"] == lim - 1:
+                                    o.stats["probe.index_node_one_short"] += 1
+                except Exception as ex:
+                    o.observations.append("full-node probe failed: %r" % ex)
         r0, c0 = e2fsck(img, ["-fn"], wd, tag="pre", clock=clock)
         if r0.status != 0 or c0:
             o.stats["world.not_clean"] += 1
